@@ -22,7 +22,8 @@ META = dict(
     technique="Coq proof of the status/diagnostic protocol (file mode, pipe mode, handler table) over facts regenerated "
               "from main / Interpret / yyerror + classification of real runs (grammar-based generation and mutation, file and "
               "pipe) against the extracted protocol model; crashes, aborts, sanitizer reports searched per run",
-    level_text="PARTIAL. Proved (Properties_C18.v): c18_status_partial — on every front end that turns parse failures into a "
+    level_text="PARTIAL. Proved (Properties_C18.v): c18_status_current_partial — the front end regenerated from the current tree (after "
+               "fix 0fce10d, f4f7f0c, fe50f31) is good: no run aborts, problem <-> non-zero status <-> diagnostic; in general c18_status_partial — on every front end that turns parse failures into a "
                "non-zero status, clears the status on error responses, reports pending pipe input and lets no exception escape, no run "
                "aborts and problem <-> non-zero status <-> diagnostic; the proposed repaired front end is one; on the configuration "
                "regenerated from the unchanged tree the statement is refuted (c18_status_refuted: syntax error in a file, status 0; "
